@@ -1,6 +1,6 @@
 (* extract/Entry_E1.v — entry points of engine E1 (affine algebra, rectangles). *)
 From Coq Require Import ZArith QArith List Bool Ascii String.
-From Pico Require Import Num PyStr Value G_geom G_transform.
+From Pico Require Import Num PyStr Value Lex G_geom G_transform TransformParse.
 Import ListNotations.
 Local Open Scope string_scope.
 
@@ -18,6 +18,11 @@ Definition v_rect (r : Rect QOps) : value :=
   VL [VQ (Rect_x r); VQ (Rect_y r); VQ (Rect_w r); VQ (Rect_h r)].
 Definition v_pair {A B} (f : A -> value) (g : B -> value) (p : A * B) : value :=
   VL [f (fst p); g (snd p)].
+
+Definition v_dec (d : dec) : value := VQ (@dec_val QOps d).
+Definition tf_name (o : tf_op) : string :=
+  match o with TMatrix => "matrix" | TTranslate => "translate" | TScale => "scale"
+             | TRotate => "rotate" | TSkewX => "skewx" | TSkewY => "skewy" end.
 
 Definition entry_E1 (orc : oracle) (name : string) (v : value) : option value :=
   let MO := QMath orc in
@@ -43,6 +48,12 @@ Definition entry_E1 (orc : oracle) (name : string) (v : value) : option value :=
     Some (v_res (v_pair v_aff v_aff) (Affine2D_decompose_scale QOps MO (aff_of v)))
   else if name =? "affine_round" then
     Some (v_aff (Affine2D_round QOps (aff_of (arg 0 v)) (getZ (arg 1 v))))
+  else if name =? "parse_transform_ops" then
+    Some (v_res (fun l => VL (map (fun od => VL [VS (tf_name (fst od)); VL (map v_dec (snd od))]) l))
+                (parse_transform_ops (list_of_string (getS v))))
+  else if name =? "parse_svg_transform" then
+    Some (v_res v_aff (parse_svg_transform MO (list_of_string (getS v))))
+  else if name =? "py_float" then Some (v_opt v_dec (py_float (list_of_string (getS v))))
   else if name =? "rect_union" then Some (v_rect (Rect_union QOps (rect_of (arg 0 v)) (rect_of (arg 1 v))))
   else if name =? "rect_empty" then Some (VB (Rect_empty QOps (rect_of v)))
   else None.
